@@ -257,7 +257,48 @@ func (c *Ctx) execAssign(env *Env, x *ast.AssignStmt, st *State) {
 			c.assign(env, l, vals[i], st)
 		}
 	}
+	// v := x.f with f a slice field of a heap object: v and x.f share their backing array until
+	// one of them is reassigned - an element write through v is a write to the object (below)
+	if len(x.Lhs) == len(x.Rhs) {
+		for i, l := range x.Lhs {
+			id, ok := unparen(l).(*ast.Ident)
+			if !ok || id.Name == "_" {
+				continue
+			}
+			o := env.resolveIdent(id)
+			if o == nil {
+				continue
+			}
+			sel, ok := unparen(x.Rhs[i]).(*ast.SelectorExpr)
+			if !ok || env.contract {
+				continue
+			}
+			bt := env.pkg.info.TypeOf(sel.X)
+			ft := env.pkg.info.TypeOf(sel)
+			if bt == nil || ft == nil {
+				continue
+			}
+			if _, isSl := types.Unalias(env.subst(ft)).Underlying().(*types.Slice); !isSl {
+				continue
+			}
+			_, sty, isPtr := structOf(env.subst(bt))
+			if sty == nil || !isPtr {
+				continue
+			}
+			ne := *env
+			ne.noSafety = true
+			base := ne.eval(sel.X, st)
+			key := env.structSortOf(base.Ty) + "." + sel.Sel.Name
+			if st.alias == nil {
+				st.alias = map[types.Object]sliceAlias{}
+			}
+			st.alias[o] = sliceAlias{key: key, ref: base.T, val: st.vars[o].T, elemSort: env.sortOf(ft)}
+		}
+	}
 }
+
+// sliceAlias: a local slice variable that still shares its backing array with a heap field.
+type sliceAlias struct{ key, ref, val, elemSort string }
 
 func (env *Env) lhsType(l ast.Expr, st *State) types.Type {
 	if id, ok := l.(*ast.Ident); ok && id.Name == "_" {
@@ -346,7 +387,27 @@ func (c *Ctx) assign(env *Env, l ast.Expr, v Val, st *State) {
 			env.rangeAssume(st, base)
 			env.safety(st, "index", and(app("<=", "0", i.T), app("<", i.T, app("len_"+s, base.T))), x.Pos())
 			nv := Val{T: app("mk_"+s, app("store", app("arr_"+s, base.T), i.T, env.coerce(v, elemOf(bt), st).T), app("len_"+s, base.T)), Ty: base.Ty}
+			var al *sliceAlias
+			var alObj types.Object
+			if id, ok := unparen(x.X).(*ast.Ident); ok && !env.contract {
+				if o := env.resolveIdent(id); o != nil {
+					if a, ok := st.alias[o]; ok && a.val == base.T {
+						// the variable still holds the value it was given from the heap field, and
+						// the field still holds it too: the write goes to the shared array
+						if h, ok := st.heap[a.key]; ok && app("select", h, a.ref) == a.val {
+							al, alObj = &a, o
+						}
+					}
+				}
+			}
 			c.assign(env, x.X, nv, st)
+			if al != nil {
+				h := st.heap[al.key]
+				c.writes[al.key] = true
+				st.heap[al.key] = app("store", h, al.ref, nv.T)
+				st.alias[alObj] = sliceAlias{key: al.key, ref: al.ref, val: nv.T, elemSort: al.elemSort}
+				c.trust("an element write through a local slice that was assigned from a heap field (v := x.f; v[i] = e) is a write to that field: the two share their backing array")
+			}
 		default:
 			c.unsupported("%s: index assignment on %v", c.e.pos(x.Pos()), bt)
 		}
